@@ -121,6 +121,8 @@ func familyByName(name string) *wgen.Family {
 		return wgen.F1()
 	}
 	switch name {
+	case "F6c":
+		return wgen.F6c()
 	case "F15ops":
 		return wgen.F15Ops()
 	case "F15acc":
